@@ -23,6 +23,7 @@
 #include "solver_listener.h"
 #endif
 #include "timelines_extractor.h"
+#include "verif_core_hooks.h"
 #include <algorithm>
 #include <math.h>
 #include <cassert>
@@ -224,6 +225,7 @@ namespace ratio
 
     bool_expr solver::disj(const std::vector<bool_expr> &xprs) noexcept
     {
+        ORATIO_VERIF_CORE_WRAP(disj(xprs), op(*this, "disj", std::vector<expr>(xprs.cbegin(), xprs.cend()), vr_));
         // we create a new bool expression..
         std::vector<lit> lits;
         for (const auto &bex : xprs)
